@@ -508,6 +508,38 @@ def replay(shard: dict, cex: dict) -> tuple[bool, str]:
             O = np.array(embed(_np2sp(M), list(op.location), rad).tolist(), dtype=complex) @ O
         du = float(np.abs(np.asarray(U.numpy) - O).max())
         return (worst > 1e-5 or du > 1e-7), 'identity %s: |grad-fd|=%g |U-oracle|=%g at %r' % (cex['identity'], worst, du, list(p))
+    if cex.get('identity') in ('get_param', 'get_param_location', 'get_param_location-out-of-range-accepted',
+                               'params-after-set_params', 'num_params'):
+        # parameter-index identities: same shape with numeric parameterised gates (VariableUnitaryGate of the op's radixes)
+        from bqskit.ir.gates import VariableUnitaryGate
+        circ = Circuit(len(rad), rad)
+        for loc in sh['ops']:
+            circ.append_gate(VariableUnitaryGate(len(loc), [rad[q] for q in loc]), loc)
+        npar = circ.num_params
+        vals = [float(i + 1) for i in range(npar)]
+        circ.set_params(vals)
+        bad = []
+        if [float(x) for x in circ.params] != vals:
+            bad.append('params != what set_params stored')
+        flat = []
+        for _, op in circ.operations_with_cycles():
+            flat.extend(float(x) for x in op.params)
+        if flat != vals:
+            bad.append('params not in operation order')
+        for i in range(npar):
+            if float(circ.get_param(i)) != vals[i]:
+                bad.append('get_param(%d)=%r, params[%d]=%r' % (i, float(circ.get_param(i)), i, vals[i]))
+                break
+            c, q, k = circ.get_param_location(i)
+            if float(circ[c, q].params[k]) != vals[i]:
+                bad.append('get_param_location(%d)=%r points at %r, params[%d]=%r' % (i, (c, q, k), float(circ[c, q].params[k]), i, vals[i]))
+                break
+        try:
+            circ.get_param_location(npar)
+            bad.append('get_param_location(num_params) accepted')
+        except IndexError:
+            pass
+        return bool(bad), 'identity %s on %r: %s' % (cex['identity'], sh, '; '.join(bad) or 'indices agree')
     rng = np.random.RandomState(11)
     circ = Circuit(len(rad), rad)
     for loc in sh['ops']:
